@@ -119,6 +119,11 @@ func commitTxn(txn Transaction) error {
 }
 
 func (fs *FS) setFileTxn(txn Transaction, path string, file FileRecord, contents blob.Blob) error {
+	return fs.setFileTxnHandler(txn, path, file, contents, nil)
+}
+
+// setFileTxnHandler is like setFileTxn. If 'handler' is not nil, it processes the result of the Set.
+func (fs *FS) setFileTxnHandler(txn Transaction, path string, file FileRecord, contents blob.Blob, handler OpHandler) error {
 	if !hackpadfs.ValidPath(path) {
 		return hackpadfs.ErrInvalid
 	}
@@ -126,7 +131,11 @@ func (fs *FS) setFileTxn(txn Transaction, path string, file FileRecord, contents
 		panic("Contents must not be nil for regular file")
 	}
 
-	txn.Set(path, file, contents)
+	if handler != nil {
+		txn.SetHandler(path, file, contents, handler)
+	} else {
+		txn.Set(path, file, contents)
+	}
 	return nil
 }
 
